@@ -52,8 +52,10 @@ Definition model (c : case) : out :=
   | CPair true x _ =>
       let r := negb (is_nan x) in OBits [r; r; true; true; true; true; true]
   | CPair false x y =>
-      OBits [equals x y; equals y x; hash_same x y;
-             key_match y x; key_match x y; key_match y x; key_match x y]
+      (* get and contains? run the same immutables lookup: probe == stored after a hash match *)
+      let gxy := key_match y x in
+      let gyx := key_match x y in
+      OBits [equals x y; equals y x; hash_same x y; gxy; gyx; gxy; gyx]
   | CTriple x y z =>
       OBits [equals x y; equals y x; equals y z; equals z y; equals x z; equals z x]
   end.
